@@ -17,7 +17,7 @@
     set-rebuilding, set-mode) with every argument for which the code as it is behaves ([ok_op]: all of
     them once the argument repairs are in, see C12), every k. *)
 From Coq Require Import List ZArith NArith Bool Arith.
-From Jiva Require Import Meta.Model Meta.Corr Meta.Proofs.
+From Jiva Require Import Meta.Model Meta.Corr Meta.Proofs Meta.Fault.
 Import ListNotations.
 
 (** the directory left by process death after k calls is the k-th directory of the fault-free run *)
@@ -76,10 +76,14 @@ Theorem C08_durable : forall g s o w' om' k,
 Proof. exact durable. Qed.
 Print Assumptions C08_durable.
 
-(** FULL STATEMENT (C08_fault_atomic): for every invariant state, every operation, every k and errno,
+(** ** one failing call
+
+    FULL STATEMENT (C08_fault_atomic): for every invariant state, every operation, every k and errno,
     with [r := exec (op_prog g (s_mem s) o) (s_fs s) 0 None (Some (k, e))]: [dir_of_run r] recovers to
     the new view when r returns success, and to the old or the new view otherwise.
-    FALSE for the code as it is: *)
+
+    It was FALSE for the code before /repo 2b7d891 ([cfg_asis]: encodeToFile ignored the error of
+    write(2)); kept as a record of finding F5: *)
 Theorem C08_fault_refuted :
   InvS (cfg_asis 8) wit_state /\ ok_op (cfg_asis 8) wit_state (OSnap 1 false 1)
   (* ENOSPC on write(volume.meta.tmp) in a snapshot: success is returned, nothing can be recovered *)
@@ -89,8 +93,10 @@ Theorem C08_fault_refuted :
 Proof. exact fault_refuted_write_ignored. Qed.
 Print Assumptions C08_fault_refuted.
 
-(** ... and still false for Snapshot when encodeToFile tests the write error: EIO on the directory
-    sync that follows rename(volume.meta.tmp, volume.meta) *)
+(** It is still FALSE for the code as it is ([code_cfg]), for exactly one call: in Snapshot, EIO on
+    the directory sync that follows rename(volume.meta.tmp, volume.meta) — an error is returned and
+    the clean-up has removed the head that volume.meta names (finding F11,
+    createdisk-sync-after-commit; not repaired).  That call is what [excluded] describes. *)
 Theorem C08_fault_refuted_sync_after_commit :
   fault_outcome (cfg_asis 8) wit_state (OSnap 1 false 1) 26 EIO = (CErr, false)
   /\ fault_outcome (mkcfg 8 true true false false false)
@@ -99,20 +105,71 @@ Theorem C08_fault_refuted_sync_after_commit :
 Proof. exact fault_refuted_sync_after_commit. Qed.
 Print Assumptions C08_fault_refuted_sync_after_commit.
 
-(** PROVED PART: with the write error tested ([fixed g = true]), every program of the shape "rewrite
-    volume.meta, return" ([fault_atomic_vol] in Proofs.v), instantiated for SetCheckpoint: whatever
-    call fails, the directory recovers to exactly the old or the new view, and to the new one when
-    success is returned.  MISSING: snapshot / remove / revert / resize / mark-removed / open / close /
-    set-rebuilding under a failing call are not proved in general (snapshot is false until the second
-    repair, see above); they are covered by the victim runs of the check (every call of every
-    operation fails once) against the model's [exec] with [fail_at]. *)
-Theorem C08_fault_atomic_partial : forall g w m c k e,
-  fixed g = true -> InvS g (mkst w (Some m)) ->
-  let p := op_prog g (Some m) (OCheckpoint c) in
-  let r := exec p w 0 None (Some (k, e)) in
+Theorem C08_fault_refuted_code :
+  let g := code_cfg 8 in
+  let s := run_ops g (created g 16384 7) [OOpen; OSetMode (Some RW)] in
+  let o := OSnap 1 false 1 in
+  fault_outcome g s o 26 EIO = (CErr, false)
+  /\ excluded o (op_prog g (s_mem s) o) (s_fs s) 26.
+Proof.
+  split; [vm_compute; reflexivity |]. split; [vm_compute; reflexivity |].
+  exists 25. split; [reflexivity | vm_compute; reflexivity].
+Qed.
+Print Assumptions C08_fault_refuted_code.
+
+(** PROVED (Meta/Fault.v, [fault_atomic_all]): with the write error tested ([fixed g = true], the code
+    since 2b7d891) and createDisk's commit as it is ([fix_commit g = false]): from every invariant
+    state, for EVERY operation of the model — open, close, write, snapshot, remove, mark-removed
+    (PrepareRemoveDisk), revert, resize, set-checkpoint, set-rebuilding, set-mode, create on an
+    existing volume — whichever call fails with ENOSPC or EIO, the directory left recovers to the old
+    or the new view (up to [veq]), and to the new one when success is returned.
+
+    The exclusion, as a predicate on the failing call: [excluded o p w k] is [False] unless [o] is a
+    Snapshot, and then it is [f11_at p w k]: call k is the directory sync and call k-1 is
+    rename(volume.meta.tmp, volume.meta).
+
+    Why "_partial": (1) that one call is excluded (the statement is false there, see above);
+    (2) Create on an empty directory (the very first operation of a history) is not covered — [InvS]
+    asks for a recoverable directory; (3) the errno is ENOSPC or EIO ([EE]; ENOENT / EEXIST have a
+    meaning to the code and are not injected failures), and the failing call is one that reaches the
+    kernel as a system call the harness can fail ([traced]: not the stat / close / pread calls).
+    Revert and open under a failing call rest on: crash atomicity of the run ([Good] states) + every
+    failure being reported at once or masked by a retry ([errQ]); the one place where the code goes
+    on writing after a failure (revertDisk putting the old volume.meta back) is treated by hand. *)
+Theorem C08_fault_atomic_partial : forall g s o k e,
+  cfg_ok g -> fixed g = true -> fix_commit g = false ->
+  InvS g s -> ok_op g s o -> EE e ->
+  let p := op_prog g (s_mem s) o in
+  let r := exec p (s_fs s) 0 None (Some (k, e)) in
+  (forall c, call_at p (s_fs s) k = Some c -> traced c = true /\ ~ excluded o p (s_fs s) k) ->
   exists vpre vpost vk,
-    recover g w = Some vpre /\ recover g (fst (ff p w)) = Some vpost
-    /\ recover g (dir_of_run r) = Some vk /\ (vk = vpre \/ vk = vpost)
-    /\ (out_class (out_of_run r) = COk -> vk = vpost).
-Proof. exact fault_atomic_checkpoint. Qed.
+    recover g (s_fs s) = Some vpre /\ recover g (fst (ff p (s_fs s))) = Some vpost
+    /\ recover g (dir_of_run r) = Some vk /\ (veq vk vpre \/ veq vk vpost)
+    /\ (forall a, out_of_run r = Done a -> snd (fst a) = Ok -> veq vk vpost).
+Proof.
+  intros g s o k e Hcfg Hfx Hfc Hinv Hok He p r Hc.
+  destruct (fault_atomic_all g s o Hcfg Hfx Hfc Hinv Hok k e He Hc) as [vpre [vpost [H1 [H2 [vk [H3 [H4 H5]]]]]]].
+  exists vpre, vpost, vk. split; [exact H1 | split; [exact H2 | split; [exact H3 | split; [exact H4 | exact H5]]]].
+Qed.
 Print Assumptions C08_fault_atomic_partial.
+
+(** the same for the code as it is, after any history *)
+Theorem C08_fault_atomic_reachable_partial : forall n size now os o k e,
+  2 <= n -> size <> 0%N ->
+  let g := code_cfg n in
+  ok_hist g (created g size now) os ->
+  let s := run_ops g (created g size now) os in
+  ok_op g s o -> EE e ->
+  let p := op_prog g (s_mem s) o in
+  let r := exec p (s_fs s) 0 None (Some (k, e)) in
+  (forall c, call_at p (s_fs s) k = Some c -> traced c = true /\ ~ excluded o p (s_fs s) k) ->
+  exists vpre vpost vk,
+    recover g (s_fs s) = Some vpre /\ recover g (fst (ff p (s_fs s))) = Some vpost
+    /\ recover g (dir_of_run r) = Some vk /\ (veq vk vpre \/ veq vk vpost)
+    /\ (forall a, out_of_run r = Done a -> snd (fst a) = Ok -> veq vk vpost).
+Proof.
+  intros n size now os o k e Hn Hsz g Hh s Hok He p r Hc.
+  apply C08_fault_atomic_partial; try assumption; try reflexivity.
+  apply C12_wf_thm; assumption.
+Qed.
+Print Assumptions C08_fault_atomic_reachable_partial.
